@@ -220,7 +220,7 @@ fn run(ctx: &Ctx) -> Run {
                 check_relabelling(run);
                 run.count("relabelling.exhaustive_passes_under_concurrency");
             }
-            let class = *rng.pick(&["uniform", "seam", "seam", "dvertex", "edgemid", "fcentre", "polar"]);
+            let class = *rng.pick(&["uniform", "seam", "seam", "dvertex", "edgemid", "fcentre", "polar", "diagonal", "axes"]);
             let (lon, lat) = gen::point(&mut rng, &fr, class);
             run.count(&format!("class.{class}"));
             check_nearest(run, lon, lat, class);
